@@ -117,15 +117,16 @@ func builtinMathMax(call FunctionCall) Value {
 		return float64Value(call.ArgumentList[0].float64())
 	}
 	result := call.ArgumentList[0].float64()
-	if math.IsNaN(result) {
-		return NaNValue()
-	}
+	isNaN := math.IsNaN(result)
 	for _, value := range call.ArgumentList[1:] {
 		value := value.float64()
 		if math.IsNaN(value) {
-			return NaNValue()
+			isNaN = true
 		}
 		result = math.Max(result, value)
+	}
+	if isNaN {
+		return NaNValue()
 	}
 	return float64Value(result)
 }
@@ -138,15 +139,16 @@ func builtinMathMin(call FunctionCall) Value {
 		return float64Value(call.ArgumentList[0].float64())
 	}
 	result := call.ArgumentList[0].float64()
-	if math.IsNaN(result) {
-		return NaNValue()
-	}
+	isNaN := math.IsNaN(result)
 	for _, value := range call.ArgumentList[1:] {
 		value := value.float64()
 		if math.IsNaN(value) {
-			return NaNValue()
+			isNaN = true
 		}
 		result = math.Min(result, value)
+	}
+	if isNaN {
+		return NaNValue()
 	}
 	return float64Value(result)
 }
